@@ -250,6 +250,8 @@ class ExprKit(Kit):
             self.ns = {k: getattr(m, k) for k in (
                 "Ty", "Over", "Under", "Box", "FA", "BA", "FC", "BC", "FX", "BX", "Curry", "Id")}
             self.ns.update(x=m.Ty("x"), y=m.Ty("y"), z=m.Ty("z"))
+            from discopy.grammar import ccg
+            self.ns.update(CcgWord=ccg.Word, Diagram=m.Diagram)
             self.Ty, self.Id, self.Diagram, self.Box = m.Ty, m.Id, m.Diagram, m.Box
         elif cls == "cartesian":
             from discopy import cartesian as m
